@@ -888,6 +888,9 @@ def dotnet_table_cases(r, d, per_table=10, only=None):
 def _a4(x): return (x + 3) & ~3
 
 
+_VI_HDR = {}
+
+
 def version_info_strings(d):
     """-> (offset of the first String entry of the first StringTable, offset of the second one or None, end of file) or None"""
     pe = PEInfo(d)
@@ -926,6 +929,7 @@ def version_info_strings(d):
             if s0 + 6 >= n: continue
             l0 = u16(d, s0) or 0
             s1 = _a4(s0 + l0) if l0 else None
+            _VI_HDR[id(d)] = (p, st)
             return s0, s1, n
     return None
 
@@ -1047,4 +1051,72 @@ def cycle_cases(r, d):
                     if parent is not None:
                         out.append(("W%d:4:%x" % (eo + 4, 0x80000000 | (parent - rs)), "cycle:resource-dir-parent"))
                     if v & 0x80000000: dirs.append((rs + (v & 0x7fffffff), o))
+    return out
+
+
+
+# ---------------------------------------------------------------------------------------------------------------------
+# Containers grown beyond their initial capacity: a VS_VERSIONINFO StringTable with 60..130 DISTINCT keys (pe.version_info is the dictionary the
+# PE module fills from the file; dictionaries start with 64 slots), written over the original table with the enclosing lengths enlarged
+def many_keys_cases(r, d):
+    V = version_info_strings(d)
+    if not V or id(d) not in _VI_HDR:
+        return []
+    s0, s1, n = V
+    sfi, st = _VI_HDR[id(d)]
+    out = []
+    for count in (60, 63, 64, 65, 66, 100, 128, 129, 130):
+        for klen in (4, 12):
+            ents = b""
+            for k in range(count):
+                key = (("K%03d" % k) + "x" * (klen - 4)).encode("utf-16le") + b"\0\0"
+                val = ("v%d" % k).encode("utf-16le") + b"\0\0"
+                body = _a4(6 + len(key))
+                total = _a4(body + len(val))
+                e = total.to_bytes(2, "little") + (len(val) // 2).to_bytes(2, "little") + b"\x01\x00" + key
+                e += bytes(body - len(e)) + val
+                e += bytes(total - len(e))
+                ents += e
+            if s0 + len(ents) + 16 > n:
+                continue
+            st_len = (s0 - st) + len(ents)
+            sfi_len = (s0 - sfi) + len(ents)
+            if sfi_len > 0xffff:
+                continue
+            ops = ["X%d:%s" % (s0, ents.hex()), "W%d:2:%x" % (st, st_len), "W%d:2:%x" % (sfi, sfi_len)]
+            out.append((",".join(ops), "many-dictionary-keys:%d" % (0 if count < 65 else 65)))
+    return out
+
+
+# COFF string table at the very end of the file: a section named "/<n>" whose long name is a printable string running to the LAST byte without NUL
+def coff_name_cases(r, d):
+    pe = PEInfo(d)
+    if not pe.ok:
+        return []
+    F = {l: (o, w) for o, w, e, l in pe.F}
+    if "file.PointerToSymbolTable" not in F or "sec0.Name" not in F:
+        return []
+    n = len(d)
+    out = []
+    secs = [l for l in F if l.startswith("sec") and l.endswith(".Name")]
+    for L in (1, 2, 8, 40, 200):
+        for idx in (0, 4, 9, 1234567):
+            for nsym in (0, 1, 3):
+                for tail in ("open", "nul", "unprintable"):
+                    ptr = n - L - idx - 18 * nsym
+                    if ptr <= 0 or ptr >= (1 << 32):
+                        continue
+                    name = ("/%d" % idx).encode()[:8].ljust(8, b"\0")
+                    text = bytes((0x41 + k % 26) for k in range(L))
+                    if tail == "nul": text = text[:-1] + b"\0"
+                    if tail == "unprintable": text = text[:-1] + b"\x01"
+                    sl = secs[(L + idx + nsym) % len(secs)]
+                    ops = ["X%d:%s" % (n - L, text.hex()), "W%d:4:%x" % (F["file.PointerToSymbolTable"][0], ptr), "W%d:4:%x" % (F["file.NumberOfSymbols"][0], nsym),
+                           "X%d:%s" % (F[sl][0], name.hex())]
+                    out.append((",".join(ops), "coff-long-section-name@EOF"))
+    for idx in (0, 4):                                      # string table pointer at / past the end
+        for ptr in (n - 1, n, n + 1, 0xffffffff):
+            sl = secs[0]
+            out.append((",".join(["W%d:4:%x" % (F["file.PointerToSymbolTable"][0], (ptr - idx) & 0xffffffff), "W%d:4:0" % F["file.NumberOfSymbols"][0],
+                                  "X%d:%s" % (F[sl][0], ("/%d" % idx).encode().ljust(8, b"\0").hex())]), "coff-long-section-name@EOF"))
     return out
